@@ -104,6 +104,17 @@ def order_and_shortcircuit():
     return out
 
 
+def string_indexing():
+    """Strings are indexed by character, from both ends; characters are not bytes."""
+    out = []
+    for lit, n in [('"abc"', 3), ('"h\u00e9llo"', 5), ('"\u00e4b"', 2), ('"\u65e5\u672c\u8a9e"', 3)]:
+        inr = " ".join(f"println(s[{i}], s[{i - n}]);" for i in range(n))
+        out.append(f"fn main() {{ let s = {lit}; println(s.len()); {inr} for c in s {{ print(c, \"|\"); }} println(); }}")
+        for i in [n, n + 1, -n - 1, 2 * n + 1]:
+            out.append(f"fn main() {{ let s = {lit}; let i = {i}; println(\"before\"); println(s[i]); println(\"after\"); }}")
+    return out
+
+
 def values_of_constructs():
     out = [
         "fn main() { println(if true { 1 } else { 2 }, if false { 1 } else { 2 }); }",
@@ -117,7 +128,7 @@ def values_of_constructs():
         "fn f(n: int) -> int { if n < 0 { return 0; }; match n { 0 => 1, _ => n * f(n - 1) } } fn main() { println(f(10), f(-1), f(20), f(21)); }",
         "fn main() { let l = [if true { 1 } else { 2 }, { 3 }, match 1 { 1 => 4, _ => 5 }]; println(l); }",
         "fn main() { let o = ?5; println(o.unwrap_or(1), o.is_some(), o); let n = [1].pop(); println(n); }",
-    ]
+    ] + string_indexing()
     return out
 
 
@@ -156,6 +167,22 @@ def pending_operands():
     return out
 
 
+def lambdas():
+    """Function literals (capture-free): nested, sibling, passed, returned, stored; each gets its own code."""
+    return [
+        "fn main() { let outer = fn() -> int { let inner = fn() -> int { 1 }; inner() + 10 }; let after = fn() -> int { 7 }; println(outer()); println(after()); }",
+        "fn main() { let a = fn() -> int { let b = fn() -> int { let c = fn() -> int { 3 }; c() + 20 }; b() + 100 }; println(a()); let d = fn() -> int { 4 }; println(d(), a()); }",
+        "fn main() { let f = fn(x: int) -> int { x + 1 }; let g = fn(x: int) -> int { x * 2 }; println(f(g(3)), g(f(3))); }",
+        "fn apply(f: fn(int) -> int, v: int) -> int { f(v) } fn main() { println(apply(fn(x: int) -> int { x - 1 }, 5), apply(fn(x: int) -> int { let h = fn(y: int) -> int { y * y }; h(x) }, 5)); }",
+        "fn mk() -> fn() -> int { fn() -> int { 42 } } fn mk2() -> fn() -> int { let z = fn() -> int { 1 }; fn() -> int { 43 } } fn main() { let a = mk(); let b = mk2(); println(a(), b(), mk()()); }",
+        "fn main() { let l = [fn() -> int { 1 }, fn() -> int { 2 }, fn() -> int { let q = fn() -> int { 30 }; q() + 3 }]; for f in l { println(f()); } }",
+        "fn main() { let o = new { f: fn(a: int) -> int { a + 1 }, g: fn(a: int) -> int { let n = fn(b: int) -> int { b * 10 }; n(a) } }; println(o.f(1), o.g(2)); }",
+        "fn main() { let s = 0; for i in 0..3 { let f = fn(k: int) -> int { let g = fn(m: int) -> int { m + 1 }; g(k) * 2 }; s += f(i); } println(s); }",
+        "fn rec(n: int) -> int { let step = fn(k: int) -> int { k - 1 }; if n <= 0 { 0 } else { 1 + rec(step(n)) } } fn main() { println(rec(5)); }",
+        "fn main() { let f = fn() -> fn() -> int { fn() -> int { 9 } }; let g = f(); println(g(), f()()); let h = fn() -> int { 8 }; println(h()); }",
+    ]
+
+
 def all_families():
     return {
         "snapshot": snapshot(),
@@ -165,4 +192,5 @@ def all_families():
         "values": values_of_constructs(),
         "intmatrix": int_matrix(),
         "pending": pending_operands(),
+        "lambdas": lambdas(),
     }
